@@ -92,8 +92,8 @@ def run(ctx):
     ctx.rule = ("one evaluation = one generator call at one size, compared exactly (edges, crossings, colouring) with the index-level model and "
                 "judged against the advertised tiling; non-trivial = all of them; distinct by (generator, size)")
     rep0 = core.guarded_translate(ctx, translate.regenerate_all, "T-int/T-const", dict(kernels=[], tables=[], changed={}))
-    ctx.translated = [k for k in rep0["kernels"] if k["kernel"] in ("next_cell_number", "crossing", "honeycomb_next_direction", "hso_next_direction")] + \
-                     [t for t in rep0.get("tables", []) if isinstance(t, dict) and str(t.get("table", "")).startswith(("trinon", "honey", "hso"))]
+    core.note_translation(ctx, [k for k in rep0["kernels"] if k["kernel"] in ("next_cell_number", "crossing", "honeycomb_next_direction", "hso_next_direction")] + \
+                     [t for t in rep0.get("tables", []) if isinstance(t, dict) and str(t.get("table", "")).startswith(("trinon", "honey", "hso"))])
     ctx.run_audit()
     rng = np.random.default_rng(ctx.seed)
     quick = False          # the whole quantifier is cheap enough for every run; thorough adds more random unit cells
